@@ -228,7 +228,12 @@ func (m *RWMutex) RUnlock() {
 		idx = len(m.rowners) - 1
 	}
 	if idx >= 0 {
-		m.rowners = append(m.rowners[:idx], m.rowners[idx+1:]...)
+		// (element-wise: the runtime's slice copy reports to the race detector)
+		for j := idx; j < len(m.rowners)-1; j++ {
+			m.rowners[j] = m.rowners[j+1]
+		}
+		m.rowners[len(m.rowners)-1] = nil
+		m.rowners = m.rowners[:len(m.rowners)-1]
 	}
 	m.real.RUnlock()
 	if m.readers == 0 || true {
@@ -325,12 +330,15 @@ func (o *Once) Do(f func()) {
 		return
 	}
 	o.running = true
-	defer func() {
-		o.running = false
-		o.done = true
-		wakeAll(&o.waiters)
-	}()
+	defer o.finish()
 	o.real.Do(f)
+}
+
+// finish is a named method (not a closure) so that //go:norace covers it.
+func (o *Once) finish() {
+	o.running = false
+	o.done = true
+	wakeAll(&o.waiters)
 }
 
 // ---------------------------------------------------------------- Cond
@@ -365,7 +373,11 @@ func (c *Cond) Signal() {
 	if len(c.waiters) > 0 {
 		i := simrt.Intn(len(c.waiters))
 		simrt.Wake(c.waiters[i])
-		c.waiters = append(c.waiters[:i], c.waiters[i+1:]...)
+		for j := i; j < len(c.waiters)-1; j++ {
+			c.waiters[j] = c.waiters[j+1]
+		}
+		c.waiters[len(c.waiters)-1] = nil
+		c.waiters = c.waiters[:len(c.waiters)-1]
 	}
 }
 
